@@ -73,10 +73,354 @@ theorem exec1_brkIfNone (e : Env) (tape : Array UInt64) (fuel : Nat) (t : UInt8)
   · have : (t == 0) = false := by simpa [typeNone] using h
     simp [ht, h, this]
 
-def SimLoopFE (pj : PJ) (o : Out) (r : Res (Array Iter)) : Prop :=
+/-- the loop of `Array.ForEach` IS `View.arrForEach`; every iteration moves the cursor forward, so
+    `lim - pos` iterations suffice on both sides -/
+theorem arrForEach_loop (pj : PJ) : ∀ (n : Nat) (i : Iter) (acc : Array Iter) (e : Env) (fuel mf : Nat),
+    i.lim - pos i < n → 0 ≤ i.addNext → n ≤ mf → n + i.lim + 5 ≤ fuel → i.lim ≤ pj.tape.size →
+    ItInv pj "i" i e → logOf e = encIters acc →
+    match View.arrForEach pj i acc mf with
+    | .ok its => ∃ e', exec1 goFuns fuel (.loop feLoopBody) ⟨e, pj.tape⟩ = .normal ⟨e', pj.tape⟩ ∧
+        logOf e' = encIters its
+    | .panic => exec1 goFuns fuel (.loop feLoopBody) ⟨e, pj.tape⟩ = .panic
+    | _ => False := by
+  intro n
+  induction n with
+  | zero => intro i acc e fuel mf h; omega
+  | succ n ih =>
+    intro i acc e fuel mf hm h0 hmf hf hl inv hlog
+    obtain ⟨m, rfl⟩ : ∃ m, mf = m + 1 := ⟨mf - 1, by omega⟩
+    obtain ⟨F, rfl⟩ : ∃ F, fuel = F + 2 := ⟨fuel - 2, by omega⟩
+    have hA := exec1_advance pj ⟨e, pj.tape⟩ "t" "i" rfl i F hl rfl inv (by omega)
+    rw [View.arrForEach, exec1, feLoopBody_eq, exec]
+    cases hr : i.advance pj with
+    | ok r =>
+      obtain ⟨i', t⟩ := r
+      rw [hr] at hA
+      simp only [] at hA
+      rw [hA]
+      simp only [Res.bind_ok]
+      have inv1 : ItInv pj "i" i' ((advEnv e "i" i' pj).set "t" (.u8 t)) :=
+        (inv.adv i' (by decide) (by decide) (by decide)).set _ _ (by decide)
+      have hlog1 : logOf ((advEnv e "i" i' pj).set "t" (.u8 t)) = logOf e := by
+        apply logOf_congr
+        rw [Env.get_set_ne _ _ (by decide), get_advEnv _ _ _ _ _ (by decide)]
+      rw [exec, exec1_brkIfNone _ _ _ t (Env.get_set_self _ _ _)]
+      by_cases ht : t = typeNone
+      · subst ht
+        simp only [if_true, beq_self_eq_true]
+        exact ⟨_, rfl, by rw [hlog1, hlog]⟩
+      · have hb : (t == typeNone) = false := by simp [ht]
+        obtain ⟨f1, f2, f3, f4, f5, _⟩ := advance_facts pj i h0 i' t hr ht
+        simp only [ht, hb, if_false, Bool.false_eq_true]
+        rw [exec, exec1_cb_i _ _ _ i' inv1.it]
+        simp only [exec]
+        have := ih i' (acc.push i') _ (F + 1) m (by unfold pos at hm ⊢; omega) f4 (by omega) (by omega)
+          (by omega) (inv1.set "fn.log" (.ints (logOf ((advEnv e "i" i' pj).set "t" (.u8 t)) ++ encIter i'))
+            (by decide))
+          (by rw [logOf_set, hlog1, hlog, encIters_push])
+        exact this
+    | panic =>
+      rw [hr] at hA
+      simp only [] at hA
+      rw [hA]
+      simp
+    | error _ => rw [hr] at hA; exact hA.elim
+    | diverge => rw [hr] at hA; exact hA.elim
+
+/-- `Array.ForEach` against `View.arrForEach`: the callbacks made are the model's, in order; the tape is untouched -/
+def SimFE (pj : PJ) (o : Out) (r : Res (Array Iter)) : Prop :=
   match r with
-  | .ok its => ∃ e', o = .normal ⟨e', pj.tape⟩ ∧ logOf e' = encIters its ∧ ItInv pj "i" default e' ∨ True
+  | .ok its => ∃ s, o = .ret s [] ∧ s.tape = pj.tape ∧ logOf s.env = encIters its
   | .panic => o = .panic
   | _ => False
+
+theorem ItInv_init (pj : PJ) (v : View) (e0 : Env) (h0 : RecvIn pj "a" v e0) :
+    ItInv pj "i" v.iter (setIter e0 "i" v.iter) := by
+  obtain ⟨a1, a2, hS, hM⟩ := h0
+  refine ⟨iterAt_setIter_i _ _, ?_, ?_⟩
+  · rw [get_setIter_ne _ _ _ _ (by decide), hS]
+  · rw [get_setIter_ne _ _ _ _ (by decide), hM]
+
+theorem arrForEach_sim (pj : PJ) (v : View) (hl : v.lim ≤ pj.tape.size) (e0 : Env) (h0 : RecvIn pj "a" v e0)
+    (hlog : logOf e0 = []) (fuel mf : Nat) (hmf : v.lim - v.off + 1 ≤ mf) (hf : 2 * v.lim + 6 ≤ fuel) :
+    SimFE pj (runFun goFuns goArray_ForEach fuel ⟨e0, pj.tape⟩) (View.arrForEach pj v.iter #[] mf) := by
+  have hsplit : goArray_ForEach.body = goArray_ForEach.body.take 5 ++ [.loop feLoopBody, .ret []] := rfl
+  have hinit : exec goFuns fuel (goArray_ForEach.body.take 5) ⟨e0, pj.tape⟩ =
+      .normal ⟨setIter e0 "i" v.iter, pj.tape⟩ := by
+    obtain ⟨a1, a2, hS, hM⟩ := h0
+    simp only [String.reduceAppend] at a1 a2
+    simp [goArray_ForEach, a1, a2, setIter, View.iter, tagEnd]
+  have hloop := arrForEach_loop pj (v.lim - v.off + 1) v.iter #[] (setIter e0 "i" v.iter) fuel mf
+    (by simp [pos, View.iter]) (by simp [View.iter]) hmf (by simp [View.iter]; omega) hl (ItInv_init pj v e0 h0)
+    (by rw [logOf_congr (get_setIter_ne _ _ _ _ (by decide)), hlog]; rfl)
+  unfold runFun
+  rw [hsplit, exec_append, hinit]
+  simp only []
+  rw [exec]
+  revert hloop
+  generalize exec1 goFuns fuel (.loop feLoopBody) _ = out
+  cases View.arrForEach pj v.iter #[] mf with
+  | ok its =>
+    rintro ⟨e', rfl, hlg⟩
+    simp [SimFE]
+    exact hlg
+  | panic => rintro rfl; simp [SimFE]
+  | error _ => exact fun h => h.elim
+  | diverge => exact fun h => h.elim
+
+/-! ## 3. `Array.DeleteElems` -/
+
+/-- the run predicate "every deleted element ends inside the view": follows the model's run; `false` as soon as a
+    callback answers `true` for an element whose end `off + addNext` lies beyond `lim` (Go then writes through the
+    iterator's view and panics; the model's `fillNops` checks against the whole array) -/
+def arrDelInView (pj : PJ) (q : Nat → Bool) (i : Iter) (k : Nat) : (fuel : Nat) → Bool
+  | 0 => true
+  | fuel + 1 =>
+    match i.advance pj with
+    | .ok (i', t) =>
+      if t == typeNone then true
+      else if q k then
+        decide ((i'.off : Int) + i'.addNext ≤ i'.lim) &&
+          (match View.fillNops pj.tape (i'.off - 1) ((i'.off : Int) + i'.addNext).toNat with
+           | .ok tp => arrDelInView { pj with tape := tp } q i' (k + 1) fuel
+           | _ => true)
+      else arrDelInView pj q i' (k + 1) fuel
+    | _ => true
+
+def deLoopBody : List Stmt := firstLoop goArray_DeleteElems.body
+
+def arrFillStmts : List Stmt :=
+  .assign "startO" (.bin .sub (.v "i.off") (.int 1)) :: .assign "end" (.bin .add (.v "i.off") (.v "i.addNext")) ::
+    fillTail "off" "i"
+
+theorem deLoopBody_eq : deLoopBody = [.callAssign ["t"] "i" "Iter.Advance" [] [],
+    .ite (.bin .eq (.v "t") (.u8 0)) [.brk] [],
+    .cb "#fn" "fn" [.v "i.off", .v "i.addNext", .v "i.cur", .v "i.t", .v "i.lim"],
+    .ite (.v "#fn") arrFillStmts []] := rfl
+
+theorem arrFill_run (e : Env) (tape : Array UInt64) (fuel : Nat) (i' : Iter) (hI : iterAt e "i" = some i')
+    (h1 : 1 ≤ i'.off) (h0 : 0 ≤ i'.addNext) (hf : min (pos i') i'.lim - (i'.off - 1) + 3 ≤ fuel) :
+    match Iter.nopFillV i'.lim tape (i'.off - 1) (pos i') with
+    | .ok t' => ∃ e', exec goFuns fuel arrFillStmts ⟨e, tape⟩ = .normal ⟨e', t'⟩ ∧
+        ∀ k, k ∉ ["startO", "end", "skip", "off"] → e'.get k = e.get k
+    | .panic => exec goFuns fuel arrFillStmts ⟨e, tape⟩ = .panic
+    | _ => False := by
+  obtain ⟨g1, g2, g3, g4, g5⟩ := iterAt_get_i _ _ hI
+  have hs : exec1 goFuns fuel (.assign "startO" (.bin .sub (.v "i.off") (.int 1))) ⟨e, tape⟩ =
+      .normal ⟨e.set "startO" (.int ((i'.off - 1 : Nat) : Int)), tape⟩ := by
+    have : (i'.off : Int) - 1 = ((i'.off - 1 : Nat) : Int) := by omega
+    simp [g1, this]
+  have he : exec1 goFuns fuel (.assign "end" (.bin .add (.v "i.off") (.v "i.addNext")))
+      ⟨e.set "startO" (.int ((i'.off - 1 : Nat) : Int)), tape⟩ =
+      .normal ⟨(e.set "startO" (.int ((i'.off - 1 : Nat) : Int))).set "end" (.int ((pos i' : Nat) : Int)), tape⟩ := by
+    have : (i'.off : Int) + i'.addNext = ((pos i' : Nat) : Int) := by unfold pos; omega
+    simp [g1, g2, this]
+  have ht := fillTail_run "off" "i" i'.lim (i'.off - 1) (pos i') (by decide) (by decide) (by decide) (by decide) tape
+    ((e.set "startO" (.int ((i'.off - 1 : Nat) : Int))).set "end" (.int ((pos i' : Nat) : Int))) fuel
+    (by unfold pos; omega) hf (by simp) (by simp) (by simp [g5])
+  rw [arrFillStmts, exec, hs]
+  simp only []
+  rw [exec, he]
+  simp only []
+  revert ht
+  cases Iter.nopFillV i'.lim tape (i'.off - 1) (pos i') with
+  | ok t' =>
+    rintro ⟨e', hx, hfr⟩
+    refine ⟨e', hx, ?_⟩
+    intro k hk
+    simp only [List.mem_cons, List.not_mem_nil, or_false, not_or] at hk
+    obtain ⟨k1, k2, k3, k4⟩ := hk
+    rw [hfr k k4 k3, Env.get_set_ne _ _ (Ne.symm k2), Env.get_set_ne _ _ (Ne.symm k1)]
+  | panic => exact fun h => h
+  | error _ => exact fun h => h
+  | diverge => exact fun h => h
+
+/-- the answers the callback will give: `q 0, q 1, …, q (N-1)` -/
+def answers (N : Nat) (q : Nat → Bool) : List Bool := (List.range N).map q
+
+theorem answers_drop (N : Nat) (q : Nat → Bool) (k : Nat) (h : k < N) :
+    (answers N q).drop k = q k :: (answers N q).drop (k + 1) := by
+  unfold answers
+  rw [List.drop_eq_getElem_cons (by simpa using h)]
+  simp
+
+/-- the loop of `Array.DeleteElems`: IS `View.arrDeleteElems` as long as every deleted element ends inside the view;
+    panics otherwise -/
+theorem arrDel_loop (N : Nat) (q : Nat → Bool) : ∀ (n : Nat) (pj : PJ) (i : Iter) (acc : Array Iter) (e : Env)
+    (fuel mf : Nat), i.lim - pos i < n → 0 ≤ i.addNext → n ≤ mf → n + i.lim + 6 ≤ fuel → i.lim ≤ pj.tape.size →
+    ItInv pj "i" i e → logOf e = encIters acc →
+    e.get "fn.results" = some (.bools ((answers N q).drop acc.size)) → acc.size + (i.lim - pos i) ≤ N →
+    if arrDelInView pj q i acc.size mf = true then
+      match View.arrDeleteElems pj q i acc.size acc mf with
+      | .ok (pj', its) => ∃ e', exec1 goFuns fuel (.loop deLoopBody) ⟨e, pj.tape⟩ = .normal ⟨e', pj'.tape⟩ ∧
+          logOf e' = encIters its ∧ e'.get "fn.results" = some (.bools ((answers N q).drop its.size))
+      | .panic => exec1 goFuns fuel (.loop deLoopBody) ⟨e, pj.tape⟩ = .panic
+      | _ => False
+    else exec1 goFuns fuel (.loop deLoopBody) ⟨e, pj.tape⟩ = .panic := by
+  intro n
+  induction n with
+  | zero => intro pj i acc e fuel mf h; omega
+  | succ n ih =>
+    intro pj i acc e fuel mf hm h0 hmf hf hl inv hlog hres hN
+    obtain ⟨m, rfl⟩ : ∃ m, mf = m + 1 := ⟨mf - 1, by omega⟩
+    obtain ⟨F, rfl⟩ : ∃ F, fuel = F + 2 := ⟨fuel - 2, by omega⟩
+    have hA := exec1_advance pj ⟨e, pj.tape⟩ "t" "i" rfl i F hl rfl inv (by omega)
+    rw [arrDelInView, View.arrDeleteElems, exec1, deLoopBody_eq, exec]
+    cases hr : i.advance pj with
+    | ok r =>
+      obtain ⟨i', t⟩ := r
+      rw [hr] at hA
+      simp only [] at hA
+      rw [hA]
+      simp only [Res.bind_ok]
+      have inv1 : ItInv pj "i" i' ((advEnv e "i" i' pj).set "t" (.u8 t)) :=
+        (inv.adv i' (by decide) (by decide) (by decide)).set _ _ (by decide)
+      have hlog1 : logOf ((advEnv e "i" i' pj).set "t" (.u8 t)) = logOf e := by
+        apply logOf_congr
+        rw [Env.get_set_ne _ _ (by decide), get_advEnv _ _ _ _ _ (by decide)]
+      have hres1 : ((advEnv e "i" i' pj).set "t" (.u8 t)).get "fn.results" =
+          some (.bools ((answers N q).drop acc.size)) := by
+        rw [Env.get_set_ne _ _ (by decide), get_advEnv _ _ _ _ _ (by decide), hres]
+      rw [exec, exec1_brkIfNone _ _ _ t (Env.get_set_self _ _ _)]
+      by_cases ht : t = typeNone
+      · subst ht
+        simp only [if_true, beq_self_eq_true]
+        exact ⟨_, rfl, by rw [hlog1, hlog], hres1⟩
+      · have hb : (t == typeNone) = false := by simp [ht]
+        obtain ⟨f1, f2, f3, f4, f5, _⟩ := advance_facts pj i h0 i' t hr ht
+        have hkN : acc.size < N := by unfold pos at hN; omega
+        simp only [ht, hb, if_false, Bool.false_eq_true]
+        rw [answers_drop N q _ hkN] at hres1
+        rw [exec, exec1_cbq_i _ _ _ i' (q acc.size) _ inv1.it hres1]
+        simp only []
+        generalize hE2 : (((((advEnv e "i" i' pj).set "t" (.u8 t)).set "fn.log"
+          (.ints (logOf ((advEnv e "i" i' pj).set "t" (.u8 t)) ++ encIter i'))).set "fn.results"
+          (.bools ((answers N q).drop (acc.size + 1)))).set "#fn" (.bool (q acc.size))) = E2
+        have inv2 : ItInv pj "i" i' E2 := by
+          subst hE2
+          exact ((inv1.set _ _ (by decide)).set _ _ (by decide)).set _ _ (by decide)
+        have hlog2 : logOf E2 = encIters (acc.push i') := by
+          subst hE2
+          rw [logOf_congr (e := ((advEnv e "i" i' pj).set "t" (.u8 t)).set "fn.log"
+            (.ints (logOf ((advEnv e "i" i' pj).set "t" (.u8 t)) ++ encIter i')))
+            (by rw [Env.get_set_ne _ _ (by decide), Env.get_set_ne _ _ (by decide)]),
+            logOf_set, hlog1, hlog, encIters_push]
+        have hres2 : E2.get "fn.results" = some (.bools ((answers N q).drop (acc.push i').size)) := by
+          subst hE2
+          rw [Env.get_set_ne _ _ (by decide), Env.get_set_self, Array.size_push]
+        have hfn : E2.get "#fn" = some (.bool (q acc.size)) := by
+          subst hE2
+          rw [Env.get_set_self]
+        have hN2 : (acc.push i').size + (i'.lim - pos i') ≤ N := by
+          rw [Array.size_push]; unfold pos at hN ⊢; omega
+        rw [exec]
+        cases hq : q acc.size with
+        | false =>
+          rw [hq] at hfn
+          have hite : exec1 goFuns (F + 1) (.ite (.v "#fn") arrFillStmts []) ⟨E2, pj.tape⟩ = .normal ⟨E2, pj.tape⟩ := by
+            simp [hfn]
+          rw [hite]
+          simp only [Bool.false_eq_true, if_false, Res.bind_ok, exec]
+          have := ih pj i' (acc.push i') E2 (F + 1) m (by unfold pos at hm ⊢; omega) f4 (by omega) (by omega)
+            (by omega) inv2 hlog2 hres2 hN2
+          rw [Array.size_push] at this
+          exact this
+        | true =>
+          rw [hq] at hfn
+          have hite : exec1 goFuns (F + 1) (.ite (.v "#fn") arrFillStmts []) ⟨E2, pj.tape⟩ =
+              exec goFuns (F + 1) arrFillStmts ⟨E2, pj.tape⟩ := by
+            simp [hfn, -exec]
+          rw [hite]
+          have hfill := arrFill_run E2 pj.tape (F + 1) i' inv2.it (by omega) f4 (by unfold pos; omega)
+          have hpos : ((i'.off : Int) + i'.addNext).toNat = pos i' := by unfold pos; omega
+          simp only [if_true, hpos]
+          by_cases hv : pos i' ≤ i'.lim
+          · have hdec : decide ((i'.off : Int) + i'.addNext ≤ i'.lim) = true := by
+              simp only [decide_eq_true_eq]; unfold pos at hv; omega
+            have hchk : ¬ ((i'.off : Int) + i'.addNext < 0 ∨ i'.off = 0) := by omega
+            rw [nopFillV_eq_nopFill _ _ _ _ _ (Nat.le_refl _) hv] at hfill
+            simp only [hdec, Bool.true_and, hchk, if_false, View.fillNops]
+            cases hnf : Iter.nopFill pj.tape (i'.off - 1) (pos i') with
+            | ok tp =>
+              rw [hnf] at hfill
+              obtain ⟨e3, hx, hfr⟩ := hfill
+              rw [hx]
+              simp only [Res.bind_ok, exec]
+              have hsz : tp.size = pj.tape.size := nopFill_size _ _ _ _ _ (Nat.le_refl _) hnf
+              have inv3 : ItInv { pj with tape := tp } "i" i' e3 :=
+                ItInv.congr (pj := { pj with tape := tp }) ⟨inv2.it, inv2.sb, inv2.ms⟩
+                  (fun k hk => hfr k (by revert k; decide))
+              have := ih { pj with tape := tp } i' (acc.push i') e3 (F + 1) m (by unfold pos at hm ⊢; omega) f4
+                (by omega) (by omega) (by simp only; omega) inv3
+                (by rw [logOf_congr (hfr _ (by decide)), hlog2])
+                (by rw [hfr _ (by decide), hres2]) hN2
+              rw [Array.size_push] at this
+              exact this
+            | panic =>
+              rw [hnf] at hfill
+              rw [hfill]
+              simp
+            | error _ => rw [hnf] at hfill; exact hfill.elim
+            | diverge => rw [hnf] at hfill; exact hfill.elim
+          · have hdec : decide ((i'.off : Int) + i'.addNext ≤ i'.lim) = false := by
+              simp only [decide_eq_false_iff_not]; unfold pos at hv; omega
+            rw [nopFillV_panic _ _ _ _ _ (Nat.le_refl _) (by unfold pos; omega) (by omega)] at hfill
+            simp only [hdec, Bool.false_and, Bool.false_eq_true, if_false]
+            rw [hfill]
+    | panic =>
+      rw [hr] at hA
+      simp only [] at hA
+      rw [hA]
+      simp
+    | error _ => rw [hr] at hA; exact hA.elim
+    | diverge => rw [hr] at hA; exact hA.elim
+
+/-- `Array.DeleteElems` against `View.arrDeleteElems`: the new tape, the callbacks made, the answers not consumed -/
+def SimDel (N : Nat) (q : Nat → Bool) (o : Out) (r : Res (PJ × Array Iter)) : Prop :=
+  match r with
+  | .ok (pj', its) => ∃ s, o = .ret s [] ∧ s.tape = pj'.tape ∧ logOf s.env = encIters its ∧
+      s.env.get "fn.results" = some (.bools ((answers N q).drop its.size))
+  | .panic => o = .panic
+  | _ => False
+
+/-- `Array.DeleteElems`, exactly: as long as every deleted element ends inside the view the run IS the model's;
+    otherwise the Go code panics (whatever the model does) -/
+theorem arrDeleteElems_exact (pj : PJ) (v : View) (hl : v.lim ≤ pj.tape.size) (e0 : Env) (h0 : RecvIn pj "a" v e0)
+    (hlog : logOf e0 = []) (q : Nat → Bool) (N : Nat) (hres : e0.get "fn.results" = some (.bools (answers N q)))
+    (hN : v.lim - v.off ≤ N) (fuel mf : Nat) (hmf : v.lim - v.off + 1 ≤ mf) (hf : 2 * v.lim + 7 ≤ fuel) :
+    if arrDelInView pj q v.iter 0 mf = true then
+      SimDel N q (runFun goFuns goArray_DeleteElems fuel ⟨e0, pj.tape⟩) (View.arrDeleteElems pj q v.iter 0 #[] mf)
+    else runFun goFuns goArray_DeleteElems fuel ⟨e0, pj.tape⟩ = .panic := by
+  have hsplit : goArray_DeleteElems.body = goArray_DeleteElems.body.take 5 ++ [.loop deLoopBody, .ret []] := rfl
+  have hinit : exec goFuns fuel (goArray_DeleteElems.body.take 5) ⟨e0, pj.tape⟩ =
+      .normal ⟨setIter e0 "i" v.iter, pj.tape⟩ := by
+    obtain ⟨a1, a2, hS, hM⟩ := h0
+    simp only [String.reduceAppend] at a1 a2
+    simp [goArray_DeleteElems, a1, a2, setIter, View.iter, tagEnd]
+  have hloop := arrDel_loop N q (v.lim - v.off + 1) pj v.iter #[] (setIter e0 "i" v.iter) fuel mf
+    (by simp [pos, View.iter]) (by simp [View.iter]) hmf (by simp [View.iter]; omega) hl (ItInv_init pj v e0 h0)
+    (by rw [logOf_congr (get_setIter_ne _ _ _ _ (by decide)), hlog]; rfl)
+    (by rw [get_setIter_ne _ _ _ _ (by decide), hres]; rfl) (by simp [pos, View.iter]; omega)
+  simp only [List.size_toArray, List.length_nil] at hloop
+  unfold runFun
+  rw [hsplit, exec_append, hinit]
+  simp only []
+  rw [exec]
+  revert hloop
+  generalize exec1 goFuns fuel (.loop deLoopBody) _ = out
+  by_cases hv : arrDelInView pj q v.iter 0 mf = true
+  · simp only [hv, if_true]
+    cases View.arrDeleteElems pj q v.iter 0 #[] mf with
+    | ok r =>
+      obtain ⟨pj', its⟩ := r
+      rintro ⟨e', rfl, hlg, hrs⟩
+      simp [SimDel]
+      exact ⟨hlg, hrs⟩
+    | panic => rintro rfl; simp [SimDel]
+    | error _ => exact fun h => h.elim
+    | diverge => exact fun h => h.elim
+  · simp only [hv, if_false]
+    rintro rfl
+    simp
 
 end SJ.GoDelete
